@@ -324,7 +324,22 @@ func runMux(e *Env) {
 					// hold this very request at one point of its way through the driver
 					k.ArmNext(armNext[ti][oi])
 				}
-				if op.unbuildable {
+				if op.unbuildable && proto < 4 && (ti+oi)%2 == 0 {
+					// a custom payload, which protocols before 4 cannot carry: the driver refuses
+					// by returning an error or by panicking in the caller's goroutine (which an
+					// application may well recover from, e.g. per request in a server)
+					func() {
+						defer func() {
+							if r := recover(); r != nil {
+								err = fmt.Errorf("named query values are not supported in batches (stand-in for the panic: %v)", r)
+							}
+						}()
+						err = sess.Query("ECHO '" + token + "'").WithContext(ctx).CustomPayload(map[string][]byte{"k": {1}}).Scan(&got)
+					}()
+					if err == nil {
+						err = errors.New("a custom payload was sent on a protocol that cannot carry one")
+					}
+				} else if op.unbuildable {
 					b := sess.NewBatch(gocql.UnloggedBatch).WithContext(ctx)
 					b.Query(prepStmt, gocql.NamedValue("k", token))
 					err = sess.ExecuteBatch(b)
@@ -534,7 +549,7 @@ func muxCheckOutcome(k *kernel.Kernel, op *muxOp, err error, got string) {
 		if op.otherVersion && strings.Contains(err.Error(), "unexpected protocol version in response") {
 			return
 		}
-		if op.unbuildable && (strings.Contains(err.Error(), "named query values are not supported in batches") || strings.Contains(err.Error(), "named values are not supported by protocol versions below 3")) {
+		if op.unbuildable && (strings.Contains(err.Error(), "named query values are not supported in batches") || strings.Contains(err.Error(), "named values are not supported by protocol versions below 3") || strings.Contains(err.Error(), "ustom payload is not supported")) {
 			return
 		}
 		k.Violate("C06", "C06/unexpected-outcome", "request %s ended with an outcome outside the documented set: %v", op.token, err)
